@@ -330,5 +330,93 @@ def Accepts (f : File) (path : Option Loc) (name : String) (n : Nat) : Prop :=
     | some d => d.elems.length = n ∨ d.maxlen = none ∨ ∃ m, d.maxlen = some m ∧ n ≤ m
     | none => (g ++ [name]) ∉ f.groups)
 
+/-! ## byte streams: the `memfp` argument of `dump_pickle_to_hdf`
+
+  `dump_pickle_to_hdf(memfp, fp, path, dsetname)` is a public function of its own (documented
+  argument: "memfp : file object — Bytes stream of pickled data"), not only the tail of
+  `dump_state`.  A caller may hand it a stream in any state a seekable binary stream can be
+  in: positioned at 0 (`BytesIO(data)`), at its end (just filled by `pickle.dump` /
+  `write`, not rewound — this is what `dump_state` itself passes), in the middle (partially
+  read), or beyond its end (`seek` past the end is legal for `BytesIO` and for files).
+  The code rewinds (`memfp.seek(0)`) and reads everything (`memfp.read()`); both steps are
+  in the model so that "the position is irrelevant" is a theorem about the code as written
+  (`C20_stream_position_irrelevant`) and the harness feeds the real positions to the driver.
+-/
+
+/-- A seekable binary stream: all the bytes it holds and the position of the next
+    read/write.  The position is not bounded by the length. -/
+structure Stream where
+  data : Bytes
+  pos  : Nat
+deriving DecidableEq, Repr
+
+namespace Stream
+
+/-- `BytesIO()` / a file just opened 'w+b'. -/
+def empty : Stream := ⟨[], 0⟩
+
+/-- `BytesIO(data)` / a file holding `data` just opened 'rb': position 0. -/
+def ofBytes (b : Bytes) : Stream := ⟨b, 0⟩
+
+/-- `memfp.seek(n)` (absolute; any `n`). -/
+def seek (s : Stream) (n : Nat) : Stream := { s with pos := n }
+
+/-- `memfp.read()`: the bytes from the position to the end — none at all when the position
+    is at or beyond the end — and the stream afterwards (at its end, or where it was if that
+    was beyond the end). -/
+def read (s : Stream) : Bytes × Stream :=
+  (s.data.drop s.pos, { s with pos := max s.pos s.data.length })
+
+/-- `memfp.write(b)`: overwrites / extends at the position; a gap between the end and the
+    position is filled with NUL bytes; writing nothing changes nothing. -/
+def write (s : Stream) (b : Bytes) : Stream :=
+  if b.isEmpty then s else
+  ⟨s.data.take s.pos ++ List.replicate (s.pos - s.data.length) 0 ++ b ++ s.data.drop (s.pos + b.length),
+   s.pos + b.length⟩
+
+end Stream
+
+/-- `dump_pickle_to_hdf(memfp, fp, path, dsetname)` as written: `memfp.seek(0)`, `memfp.read()`,
+    then the h5py part with the bytes read.  Returns the file as the call left it, the
+    exception raised if any, and the stream as the call left it. -/
+def dumpPickleStream (f : File) (path : Option Loc) (name : String) (s : Stream) :
+    (File × Option Err) × Stream :=
+  let r := (s.seek 0).read
+  (dumpPickleToHdf f path name r.1, r.2)
+
+/-- `dump_state(state, fp, path, dsetname, protocol)` as written: a fresh `BytesIO`, pickled
+    into (which leaves it positioned at its END), handed to `dump_pickle_to_hdf` as it is. -/
+def dumpStateViaStream {α} (P : Pickle α) (f : File) (path : Option Loc) (name : String)
+    (protocol : Option Nat) (v : α) : Except Err File :=
+  let memfp := Stream.empty.write (P.dumps protocol v)
+  match (dumpPickleStream f path name memfp).1 with
+  | (f', none) => .ok f'
+  | (_, some e) => .error e
+
+/-! ## several files in one process -/
+
+/-- The files open in one process, by handle.  Nothing else is shared between calls: the
+    code keeps no state of its own (no module-level variables). -/
+abbrev World := Nat → File
+
+def World.set (w : World) (i : Nat) (f : File) : World := fun j => if j = i then f else w j
+
+/-- `dump_pickle_to_hdf(memfp, files[i], path, dsetname)`. -/
+def World.dump (w : World) (i : Nat) (path : Option Loc) (name : String) (s : Stream) :
+    World × Option Err :=
+  let r := (dumpPickleStream (w i) path name s).1
+  (w.set i r.1, r.2)
+
+/-- A dump addressed to a file of the world. -/
+structure WorldOp where
+  file : Nat
+  op   : DumpOp
+deriving Repr
+
+/-- Interleaved dumps to several files, failing calls caught. -/
+def runWorld (w : World) : List WorldOp → World
+  | [] => w
+  | o :: r => runWorld (w.dump o.file o.op.path o.op.name (Stream.ofBytes o.op.bytes)).1 r
+
 end Checkpoint
 end Epsie
